@@ -177,10 +177,11 @@ def float_bop(rng, fmt):
     b, u = float_simplex(rng, fmt, 2)
     a = rng.random()
     z = rng.random()
+    hi = 15.5 if fmt == "f64" else 6.8
     if z < 0.15:            # small base rates (cancellation in 1-(1-a)(1-a') style rewrites)
-        a = 10.0 ** (-rng.uniform(1.3, 4)) if rng.random() < 0.9 else 0.0
-    elif z < 0.3:           # base rates near 1
-        a = 1.0 - 10.0 ** (-rng.uniform(1.3, 4)) if rng.random() < 0.9 else 1.0
+        a = 10.0 ** (-rng.uniform(1.3, rng.choice([4, 4, hi, 30]))) if rng.random() < 0.9 else 0.0
+    elif z < 0.3:           # base rates near 1 (1 - ax*ay by cancellation), down to the last ulps below 1
+        a = 1.0 - 10.0 ** (-rng.uniform(1.3, rng.choice([4, 4, hi]))) if rng.random() < 0.9 else 1.0
     if fmt == "f32":
         a = struct.unpack(">f", struct.pack(">f", a))[0]
     return [b[0], b[1], u, a]
